@@ -159,10 +159,9 @@ pub fn judge(ctx: &mut Ctx, c: &DedupCase) -> bool {
     match &g {
         Ok(_) => ctx.count("generate_after_dedup[ok]", 1),
         Err(e) if e == "error:DuplicateTypePath" => {
-            let all_ids: Vec<u32> = r.types.iter().map(|t| t.id).collect();
             let tag = if suffix_collision {
                 "suffix-collision"
-            } else if c.noncf.iter().any(|i| all_ids.contains(i)) {
+            } else if !tainted.is_empty() {
                 "coincidence"
             } else {
                 "other"
@@ -213,7 +212,7 @@ pub fn judge(ctx: &mut Ctx, c: &DedupCase) -> bool {
         if r2 != r1 {
             let tag = if suffix_collision {
                 "suffix-collision"
-            } else if !c.noncf.is_empty() {
+            } else if !tainted.is_empty() {
                 "coincidence"
             } else {
                 "other"
